@@ -13,7 +13,7 @@ from simtz import core
 from simtz.runner import rng_for
 
 ID = 'C26'
-QUICK_RUNS = 15000
+QUICK_RUNS = 40000
 QUICK_BUDGET_S = 60
 CHUNK = 250
 RULE = (
